@@ -12,6 +12,20 @@
 //! producer accepted the plan, so the statement's "and back yields a plan that returns the same rows" applies).
 //!
 //! Non-trivial: plan has a join, aggregate, set operation, window or subquery, and the result is non-empty.
+//!
+//! # Recorded findings (message-shape rules in ../signatures.json — FAMILIES keyed by symptom + construct, coarser
+//! than a root cause; regression cases under /verif/regressions/C37/c37/)
+//! `substrait-range-frame-offset-becomes-unbounded` (wrong rows), `substrait-window-frame-zero-offset-rejected`,
+//! `substrait-alias-loss-breaks-correlated-subquery` (wrong rows or analyzer failure), `substrait-consumer-self-join-alias-breaks-references`,
+//! `substrait-mark-join-duplicate-mark-column`, `substrait-join-without-condition`, `substrait-consumed-aggregate-nullability-mismatch`.
+//! A plan scanning a table function (generate_series) is a discard: Substrait names tables and the consuming
+//! session has no such table.
+//!
+//! # Sensitivity probes (mutrun, /verif/probes/vf-serde/m3-substrait-probes.diff, quick tier, seed 0)
+//! * producer maps `JoinType::LeftAnti` to `LeftSemi` → DETECTED: "the consumed plan returns other rows: row count
+//!   differs / multisets differ".
+//! * producer swaps `DescNullsFirst` / `DescNullsLast` → DETECTED: "the consumed plan returns other rows: result not
+//!   sorted by the ORDER BY although the original's is".
 use crate::common::*;
 use datafusion::error::DataFusionError;
 use datafusion_substrait::logical_plan::consumer::from_substrait_plan;
